@@ -122,6 +122,13 @@ def run(ck):
         ck.case(fp=('count', str(pr)), nontrivial=c['count'] > 0)
         report_case(ck, 'count', a, b, [], {'pr': pr, 'count': c['count']}, exact_count=c['count'])
         report_case(ck, 'count swapped', b, a, [], {'pr': pr, 'count': c['count']}, exact_count=c['count'])
+        # the same configuration turned by 90 / 180 / 270 degrees (exact) and with the line running the other way: axis-parallel lines in all four directions
+        w = [1j, -1, -1j][nax % 3]
+        tw = lambda sg, w=w: type(sg)(*[z * w for z in sg.bpoints()])       # noqa
+        for x_, y_, tg in ((tw(a), tw(b), 'count turned by %r' % w), (tw(a), sp.Line(tw(b).end, tw(b).start), 'count turned by %r, line reversed' % w),
+                           (sp.Line(b.end, b.start), a, 'count, line reversed, swapped')):
+            ck.case(fp=('count', tg, str(pr)), nontrivial=c['count'] > 0)
+            report_case(ck, tg, x_, y_, [], {'pr': pr, 'count': c['count'], 'turn': str(w)}, exact_count=c['count'])
         # the same configuration spelled with Beziers only, so that it goes through bezier_intersections: the quadratic degree-elevated to a cubic
         # (exactly vanishing third difference) and the line as a quadratic with equally spaced collinear control points.  All coordinates x 3/2: exact.
         ex = lambda v: [3 * v[0], v[0] + 2 * v[1], 2 * v[1] + v[2], 3 * v[2]]
@@ -217,7 +224,9 @@ def run(ck):
             for (i1, i2, pt) in exp:
                 ia, ib = (i2, i1) if sw else (i1, i2)
                 hits = [r_ for r_ in res if r_[0][1] is A[ia] and r_[1][1] is B[ib]]
-                if len(hits) != 1 or (pt is not None and not (abs(hits[0][0][1].point(hits[0][0][2]) - pt) <= 1e-6 * 12)):
+                if pt is not None and sum(1 for e_ in exp if e_[0] == i1 and e_[1] == i2) > 1:
+                    hits = [r_ for r_ in hits if abs(r_[0][1].point(r_[0][2]) - pt) <= 1e-4 * 12]      # several crossings on one pair of segments: told apart by their points
+                if len(hits) != 1 or (pt is not None and not (abs(hits[0][0][1].point(hits[0][0][2]) - pt) <= 1e-6 * max(12, abs(pt)))):
                     ck.disagree(key='Path.intersect/%s' % ('crossing-lost' if not hits else 'crossing-reported-twice' if len(hits) > 1 else 'wrong-point'),
                                 site='svgpathtools/path.py:Path.intersect', what='%s: crossing of segment %d with segment %d (at %r) reported %d times' % (name, ia, ib, pt, len(hits)),
                                 case={'family': name, 'swapped': sw}, expected=1, observed=len(hits), driver='path')
